@@ -135,6 +135,13 @@ theorem solo_call_completes (w : Word) (op : Op) (rest : List Op) (r : Word) :
     (Config.run genP ⟨w, [⟨op :: rest, 0, r⟩]⟩ [0, 0]) = ⟨op.apply w, [⟨rest, 0, w⟩]⟩ := by
   rw [genP_cas]; simp [Config.run, Config.step, Thread.step, casLoopP, Thread.next]
 
+/-- **a completing schedule always exists** (the hypothesis of `linearizable` is never vacuous, and no set of threads can
+be wedged): from the initial configuration of ANY set of threads some schedule runs all of them to completion — built
+by letting one thread at a time run alone, each call then completing within three steps (lock-freedom). -/
+theorem complete_schedule_exists (w0 : Word) (ops : List (List Op)) :
+    ∃ s, ((Config.init w0 ops).run genP s).done = true := by
+  rw [genP_cas]; exact exists_complete_cas _ (init_WF w0 ops)
+
 /-- the executable predicate evaluated on implementation traces is implied by the model: every complete run's trace of
 words is accepted by the declarative linearizability checker. -/
 theorem spec_holds_on_model_flags (w0 : Word) (ops : List (List Op)) (s : List Nat)
